@@ -416,7 +416,11 @@ func runC05(c *core.Case) {
 			return
 		}
 		kind := []string{"passive", "full", "restart", "truncate"}[variant%4]
-		ok = runTx(func() pager.TxResult { r := w.conn.RunCheckpoint(pager.CheckpointSpec{Kind: kind}); r.Finalized = false; return r })
+		ok = runTx(func() pager.TxResult {
+			r := w.conn.RunCheckpoint(pager.CheckpointSpec{Kind: kind})
+			r.Finalized = false
+			return r
+		})
 	case "litefs-checkpoint":
 		if !setup(uint32(8+variant%5), 3) {
 			return
